@@ -271,10 +271,10 @@ func concretise(k string, i int, rnd *rand.Rand) map[string]any {
 const entQuery = `query($reps:[_Any!]!){_entities(representations:$reps){__typename ... on S{v} ... on K{v} ... on N{v} ... on M{v} ... on R{v z} ... on Rm{v z}}}`
 
 type job struct {
-	E       *emitted
-	S       *vlib.Scenario
-	Variant string
-	Dup     []int // dup suite: index -> index whose keys it repeats (1-based), nil otherwise
+	E       *emitted       `json:"emitted"`
+	S       *vlib.Scenario `json:"scenario"`
+	Variant string         `json:"variant"`
+	Dup     []int          `json:"dup"` // dup suite: index -> index whose keys it repeats (1-based), nil otherwise
 }
 
 func (e *emitted) scenario(id string, rnd *rand.Rand, dup []int) *vlib.Scenario {
@@ -642,6 +642,10 @@ func main() {
 		vlib.Infra("build federation probes (do /repo's federation templates still generate compilable code?): %v", err)
 	}
 	fmt.Fprintf(os.Stderr, "[c20] %d probe variants generated and compiled in %.0fs\n", len(vs), time.Since(t0).Seconds())
+	if rp := os.Getenv("VERIF_REPLAY"); rp != "" {
+		replayOne(c, rp, bins)
+		return
+	}
 
 	// 2. model checking + export. Per alphabet: the export run (pinned model with the completion
 	// order in the state; it checks TypeOK / OwnIndexOnly / CorrectModuloKnown on a superset of the
@@ -737,6 +741,9 @@ func main() {
 	var allOK []*job
 	drift := 0
 	for vi, f := range fvs {
+		if c.Violations() >= 20 {
+			break // reporting cap reached
+		}
 		var jobs []*job
 		for k, e := range ems {
 			if e.hasReqKinds() && e.Inline != f.Inline {
@@ -794,7 +801,7 @@ func main() {
 	}
 
 	// 3b. -race build: a sample of the behaviours, any race report is a violation
-	{
+	if c.Violations() < 20 {
 		var jobs []*job
 		step := 7
 		if thorough {
@@ -911,7 +918,7 @@ func main() {
 			j := jobsByID[r.Scenario.ID]
 			rb, _ := json.Marshal(j.S.Vars["reps"])
 			c.Violate("entities|trace-rejected|"+strings.Join(j.E.Reps, ","),
-				fmt.Sprintf("Entities (pinned and repaired) does not admit the observed execution on %s\nrepresentations=%s outcomes=%v batch=%v\n%s", f.V.Name, rb, j.E.Out, j.E.Bout, r.Describe()), r.Scenario)
+				fmt.Sprintf("Entities (pinned and repaired) does not admit the observed execution on %s\nrepresentations=%s outcomes=%v batch=%v\n%s", f.V.Name, rb, j.E.Out, j.E.Bout, r.Describe()), jobsByID[r.Scenario.ID])
 		}
 	}
 
@@ -1012,6 +1019,42 @@ func main() {
 	c.Finish()
 }
 
+// replayOne re-executes the behaviour recorded in a replay file (./check C20 --replay f).
+func replayOne(c *vlib.Check, path string, bins map[string]string) {
+	b, err := os.ReadFile(path)
+	if err != nil {
+		vlib.Infra("replay: %v", err)
+	}
+	var f struct {
+		Key      string `json:"key"`
+		Scenario *job   `json:"scenario"`
+	}
+	if err := json.Unmarshal(b, &f); err != nil || f.Scenario == nil || f.Scenario.S == nil || f.Scenario.E == nil {
+		vlib.Infra("replay: %s is not a C20 replay file (%v)", path, err)
+	}
+	j := f.Scenario
+	bin := bins[j.Variant]
+	if j.Variant == "f0r" {
+		bin = bins["f0r_race"]
+	}
+	if bin == "" {
+		vlib.Infra("replay: variant %s is not built in this tier (use --tier thorough)", j.Variant)
+	}
+	j.S.Result, j.S.Crashed, j.S.Stderr = nil, false, ""
+	var env []string
+	if j.Variant == "f0r" {
+		env = []string{"GORACE=halt_on_error=1 exitcode=66"}
+	}
+	if err := vlib.RunScenarios(bin, []*vlib.Scenario{j.S}, 1, env); err != nil {
+		vlib.Infra("replay: %v", err)
+	}
+	drift := 0
+	evaluate(c, j, bin, &drift)
+	c.Set("rule", "replay of one recorded behaviour: "+f.Key)
+	c.Sample(map[string]any{"replayed": path, "variant": j.Variant, "representations": j.S.Vars["reps"]})
+	c.Finish()
+}
+
 func indexOf(fvs []fvariant, name string) int {
 	for i, f := range fvs {
 		if f.V.Name == name {
@@ -1104,16 +1147,16 @@ func evaluate(c *vlib.Check, j *job, bin string, drift *int) bool {
 	switch {
 	case s.Crashed || s.Result == nil:
 		if strings.Contains(s.Stderr, "DATA RACE") {
-			c.Violate("entities|data-race", fmt.Sprintf("race detector report while resolving _entities\n%s\n%s", where, tailStr(s.Stderr, 2500)), s)
+			c.Violate("entities|data-race", fmt.Sprintf("race detector report while resolving _entities\n%s\n%s", where, tailStr(s.Stderr, 2500)), j)
 		} else {
-			c.Violate("entities|process-death", fmt.Sprintf("the server process died while resolving _entities (a panic on a spawned goroutine that no recover site covers?)\n%s\n%s", where, tailStr(s.Stderr, 2500)), s)
+			c.Violate("entities|process-death", fmt.Sprintf("the server process died while resolving _entities (a panic on a spawned goroutine that no recover site covers?)\n%s\n%s", where, tailStr(s.Stderr, 2500)), j)
 		}
 		return false
 	case s.Result.Hung:
-		c.Violate("entities|no-response", fmt.Sprintf("_entities did not answer within 50 s although every resolver returned\n%s\n%s", where, s.Result.LeakStack), s)
+		c.Violate("entities|no-response", fmt.Sprintf("_entities did not answer within 50 s although every resolver returned\n%s\n%s", where, s.Result.LeakStack), j)
 		return false
 	case s.Result.Dirty:
-		c.Violate("entities|panic-escaped", fmt.Sprintf("a panic escaped the response function\n%s\nnotes=%v", where, s.Result.Notes), s)
+		c.Violate("entities|panic-escaped", fmt.Sprintf("a panic escaped the response function\n%s\nnotes=%v", where, s.Result.Notes), j)
 		return false
 	case len(s.Result.GateErrs) > 0:
 		vlib.Infra("the _entities query was rejected: %v", s.Result.GateErrs)
@@ -1128,11 +1171,11 @@ func evaluate(c *vlib.Check, j *job, bin string, drift *int) bool {
 	}
 	o, problem := observe(s, len(e.Reps))
 	if o == nil {
-		c.Violate("entities|malformed-response", fmt.Sprintf("%s\n%s", problem, where), s)
+		c.Violate("entities|malformed-response", fmt.Sprintf("%s\n%s", problem, where), j)
 		return false
 	}
 	if key, detail := judge(j, o); key != "" {
-		c.Violate(key, detail, s)
+		c.Violate(key, detail, j)
 	}
 	if j.Dup == nil {
 		// non-vacuity of the schedule: did the calls return in the prescribed order?
